@@ -64,8 +64,8 @@ class Interner:
             return [4, self.path(op[1])]
         raise ValueError(k)
 
-    def conflicted(self):
-        return [i for s, i in self.names.items() if ".conflicted" in s]
+    def conflicted(self, extra=()):
+        return [i for s, i in self.names.items() if ".conflicted" in s or s in extra]
 
 
 def jsonable_case(case):
@@ -207,7 +207,7 @@ def run_case(case, monitor, storage_factory=None, hooks=None, extra_rounds=6, ke
         cfg = [it.path(fl.roots[0]), it.path(fl.roots[1]),
                [] if mode.get("origin") is None else [mode["origin"]],
                1 if mode.get("check_spec") else 0, 1 if mode.get("no_conflicted") else 0,
-               it.conflicted(), bound, 1 if mode.get("cov_every_step") else 0]
+               it.conflicted(case.get("ignore_names", ())), bound, 1 if mode.get("cov_every_step") else 0]
         res.request = [0, cfg, init[0], init[1], obs]
         res.verdict = monitor.call(res.request)
         if res.stuck and res.verdict == []:
